@@ -79,7 +79,7 @@ EVENTS['set(locnew:Assoc,new:Assoc)'] = set_context([('locnew', 'Assoc'), ('new'
 for a, b in (('new:Assoc', 'new:Assoc'), ('new:Assoc', 'upd0:Assoc'), ('new:Assoc', 'new:Pre'), ('upd0:Dis', 'new:Assoc'),
              ('upd0:Assoc', 'upd1:Assoc'), ('upd0:Assoc', 'upd1:Dis'), ('new:Dis', 'new:No'),
              # a request whose first proposal is fine and whose second one is rejected (unknown state handle)
-             ('new:Assoc', 'stale:Assoc'), ('upd0:Assoc', 'stale:Dis'),
+             ('new:Assoc', 'stale:Assoc'), ('upd0:Assoc', 'stale:Dis'), ('new:Assoc', 'stale:Dis'), ('new:Assoc', 'stale:No'),
              # a new associated state together with a data-only update of another stored state
              ('new:Assoc', 'upd0:Keep'), ('new:Assoc', 'upd1:Keep'), ('upd0:Keep', 'new:Assoc')):
     EVENTS[f'set({a},{b})'] = set_context([tuple(a.split(':')), tuple(b.split(':'))])
@@ -243,7 +243,7 @@ def run(ctx):
         jobs += hist.sequences(core, 3)
     else:
         core = ['set(new:Assoc)', 'set(upd0:Dis)', 'set(upd0:Assoc)', 'set(upd1:Assoc)', 'location(1)', 'patient-new(A)',
-                'set(new:Assoc,upd0:Assoc)', 'set(new:Assoc,stale:Assoc)', 'set(new:Assoc,upd0:Keep)']
+                'set(new:Assoc,upd0:Assoc)', 'set(new:Assoc,stale:Dis)', 'set(new:Assoc,upd0:Keep)']
         jobs += hist.sequences(core, 3)
     # depth 4 over the two small context sub-alphabets (order of states inside the table matters there)
     jobs += hist.sequences(['location(1)', 'location(2)', 'location-extra(Pre)', 'location-extra(No)'], 4)
